@@ -86,7 +86,7 @@ class C01(Prop):
             'distinct_nontrivial counts distinct cases with >= 1 non-trivial (layer, step).')
     assumptions = ['factor/inverse update intervals are 1 (stale second-order data is C05\'s subject)',
                    'tolerance: c=16 sqrt(n) eps kappa with eps the coarsest of float32 (eigh/inv are float32), inv dtype, gradient dtype and, for the inverse method, the factor dtype (damping is added in it); '
-                   'kappa from the float64 system (product form for eigen, sum of the two factor condition numbers for inverse)']
+                   'kappa from the float64 system (product form for eigen, sum of the two factor condition numbers for inverse, times rho = |Gd^-1| |D| |Ad^-1| / |V| >= 1 because the inverses are formed explicitly)']
     examples = {'quick': 500, 'thorough': 2000}
     shards = {'quick': 8, 'thorough': 16}
     required_labels = {'quick': ['nontrivial=True', 'method=eigen', 'method=inverse', 'has_conv=True', 'clip=active', 'lowprec_long_run=True', 'reused_second_order=True', 'dist=True', 'reloaded=True'],
@@ -256,7 +256,13 @@ class C01(Prop):
                     V, _ = refkfac.solve_inverse(A, G, lam, D[n])
                     ka = torch.linalg.cond(A + lam * torch.eye(A.shape[0], dtype=torch.float64)).item()
                     kg = torch.linalg.cond(G + lam * torch.eye(G.shape[0], dtype=torch.float64)).item()
-                    kappa = ka + kg
+                    # explicit inverses: dV ~ E_g D Ad^-1 + Gd^-1 D E_a with |E_x| <= eps kappa_x |Xd^-1|, i.e. an error relative to
+                    # |Gd^-1| |D| |Ad^-1|, which exceeds |V| by the factor rho when D is aligned with the large eigenvalues (one-sample
+                    # batches: D = g a^T is the top eigenvector pair of both factors)
+                    Ai = torch.linalg.inv(A + lam * torch.eye(A.shape[0], dtype=torch.float64))
+                    Gi = torch.linalg.inv(G + lam * torch.eye(G.shape[0], dtype=torch.float64))
+                    rho = (torch.linalg.matrix_norm(Gi, 2) * D[n].to(torch.float64).norm() * torch.linalg.matrix_norm(Ai, 2)).item() / max(V.norm().item(), 1e-300)
+                    kappa = (ka + kg) * max(1.0, min(rho, ka * kg))
                 else:
                     V, kappa = refkfac.solve_eigen(A, G, lam, D[n])
                 sols[n] = V
